@@ -63,8 +63,12 @@ def gen_calendar(rng, tidy=True):
         ev += body + ["END:%s" % comp]
         lines += ev
     lines.append("END:VCALENDAR")
-    text = nl.join(fold(rng, l, nl) for l in lines) + nl
+    folded = [fold(rng, l, nl) for l in lines]
+    text = nl.join(folded) + nl
     cls = set()
+    if any(len(f) + len(nl) >= 1024 for f in folded):
+        # the stash rule counts the raw bytes of what the chunk holds of a line, fold bytes included (finding D18d)
+        cls.add("long-line")
     if not tidy:
         r = rng.random()
         if r < 0.3:
